@@ -71,7 +71,7 @@ ASSUMPTIONS = [
 ]
 EXPLANATION = ('every combination of boundary-touching interval sets over every small genome is executed on the real '
                'global-offset implementation and compared chromosome by chromosome with one-chromosome runs and a dense model')
-MANIFEST_TEXT = ('Exhaustive enumeration of genomes of 1..3 (quick) / 1..4 (thorough) chromosomes with sizes 1..3 and names '
+MANIFEST_TEXT = ('Coordinate columns of dtype int8..uint32 on three chromosomes of 0.45 x the dtype range (concatenated length beyond the dtype) through mask / pileup of Genome and Geometry. Exhaustive enumeration of genomes of 1..3 (quick) / 1..4 (thorough) chromosomes with sizes 1..3 and names '
                  'from {chr1, chr10, chr1_alt, c} (prefix pairs, a "_" name under keep-all and under the default '
                  'ignore-underscore filter) x every combination of per-chromosome interval sets from a boundary menu '
                  '(none / first base / whole / last base / two touching / two nested) x strand patterns x genome-order and '
